@@ -93,8 +93,37 @@ def gen_timeline(rng, n, off_min, boundaries):
     return out
 
 
-def gen_source(rng, path, letter, off_min, boundaries, n):
+def relay_jitter(rng, inst, off_min, boundaries):
+    """small steps *backwards* (1 s .. 23 h, also two or three in a row adding up to more than a day), as in a file that
+    collects records relayed from several hosts: "time never runs backwards by more than a day from one message to the
+    next" still holds, so every year is still determined. A step is taken only where it stays inside the year of the
+    message before it, keeps clear of 29 February in multi-year logs, and leaves the gap to the next message under 299 days."""
+    out = list(inst)
+    i = 1
+    done = 0
+    while i < len(out):
+        if rng.random() < 0.3:
+            run = rng.choice((1, 1, 2, 3))
+            for k in range(i, min(len(out), i + run)):
+                delta = rng.choice((1, 60, 3600, 13 * 3600, 13 * 3600, 20 * 3600, 23 * 3600, rng.randint(1, 23 * 3600))) * NS
+                cand = out[k - 1] - delta
+                if world.civil(cand, off_min)[0] != world.civil(out[k - 1], off_min)[0]:
+                    break
+                if boundaries > 0 and is_feb29(cand, off_min):
+                    break
+                if k + 1 < len(out) and inst[k + 1] - cand >= 299 * DAY:
+                    break
+                out[k] = cand
+                done += 1
+            i += run
+        i += 1
+    return out, done
+
+
+def gen_source(rng, path, letter, off_min, boundaries, n, relayed=False):
     inst = gen_timeline(rng, n, off_min, boundaries)
+    if relayed:
+        inst, nback = relay_jitter(rng, inst, off_min, boundaries)
     out = bytearray()
     msgs = []
     for i, t in enumerate(inst):
@@ -105,7 +134,7 @@ def gen_source(rng, path, letter, off_min, boundaries, n):
         msgs.append(world.Msg(t, bytes(d), b"", off_min))
     # modification time: at or after the last write, inside the last message's year (in the log's zone),
     # including the very first and the very last seconds of that year
-    last = inst[-1]
+    last = max(inst)          # (the newest write; with relayed records that need not be the last line, whose year it shares)
     y = world.civil(last, off_min)[0]
     year_end = (c14.days_from_civil(y + 1, 1, 1) * 86400 - off_min * 60) * NS
     room = max(0, (year_end - NS) - last)
@@ -157,14 +186,17 @@ def run_case(seed, i, tier):
     nsrc = rng.choice((1, 1, 2, 3))
     srcs = []
     for k in range(nsrc):
-        s = gen_source(rng, "y%d.log" % k, bytes([65 + k]), off_min, rng.choice((0, 1, 1, 2, 3)), rng.choice((2, 5, 12, 30)))
+        s = gen_source(rng, "y%d.log" % k, bytes([65 + k]), off_min, rng.choice((0, 1, 1, 2, 3)), rng.choice((2, 5, 12, 30)),
+                       relayed=(not FORCE_WINDOW) and rng.random() < 0.25)
         store(rng, s)
         srcs.append(s)
     bsz = rng.choice((64, 128, 512, 4096, 65536))
     dec = decor.Decoration(None, False, 0, "%Y%m%dT%H%M%S", ":", "")
     opts = ["--color", "never", "--tz-offset=" + tzo, "-u", "-d", "%Y%m%dT%H%M%S", "--blocksz", str(bsz)]
     a = b = None
-    if rng.random() < 0.4 or FORCE_WINDOW:
+    monotone = all(all(s.msgs[k].instant <= s.msgs[k + 1].instant for k in range(len(s.msgs) - 1)) for s in srcs)
+    # (no window on a file whose stamps step backwards: which messages a search for the bound meets there is C03's matter)
+    if (rng.random() < 0.4 and monotone) or FORCE_WINDOW:
         ts = sorted(set(m.instant for s in srcs for m in s.msgs))
         a = c03.place(rng, ts) if rng.random() < 0.7 else None
         b = c03.place(rng, ts) if (rng.random() < 0.7 or (FORCE_WINDOW and a is None)) else None
@@ -204,6 +236,8 @@ def run_case(seed, i, tier):
         cr.probes["with_window"] += 1
     if nsrc > 1:
         cr.probes["cross_file_merge"] += 1
+    if not monotone:
+        cr.probes["small_backward_steps_in_a_file"] += 1
     cr.decision_hashes.append(tr.decision_hash())
     cr.arrival_hashes.append(tr.arrival_hash())
     cr.nontrivial_keys.append(core.derive(0, merge.scenario_for(srcs, opts).digest()))
